@@ -64,6 +64,37 @@ def native(year, lname, model, want=None):
     return rep, {'inputs': {k: repr(v) for k, v in inputs.items()}, 'values': {k: repr(v) for k, v in values.items()}}
 
 
+def native_table(year, site, lname):
+    off = official()
+    table = getattr(off, site['official'])
+    tab_y = table.get(year, table) if isinstance(table, dict) else table
+    enum = status_enum(year)
+    amt_line = site['amount'].split('|', 1)[1]
+    runs, first = [], None
+    for member in enum:
+        tab = tab_y.get(member.name) if isinstance(tab_y, dict) else None
+        if not tab:
+            continue
+        bounds = [b for b, _ in tab]
+        vals = [a for _, a in tab] + [0]
+        for k, b in enumerate(bounds):
+            for x in (float(b) - 1, float(b), float(b) + 1):
+                if x < 0:
+                    continue
+                want = next((vals[j] for j, bb in enumerate(bounds) if x <= float(bb)), vals[-1])
+                r = replay.replay_line(year, lname, {'1040.filing_status': member}, {amt_line: x})
+                try:
+                    got = float(r.get('value'))
+                except Exception:
+                    got = None
+                ok = r.get('outcome') == 'return' and got is not None and abs(got - float(want)) < 1e-9
+                if not ok and first is None:
+                    first = {'status': member.name, amt_line: x, 'line_gives': r.get('value') or r.get('exc'), 'official': float(want)}
+                if not ok or len(runs) < 6:
+                    runs.append({'status': member.name, 'amount': x, 'line_gives': r.get('value') or r.get('exc'), 'official': float(want)})
+    return {'reproduced': first is not None, 'kind': 'table-bounds', 'first': first, 'runs': runs[:12]}
+
+
 def check_site(year, site):
     off = official()
     lname = line_of(site, year)
@@ -78,7 +109,14 @@ def check_site(year, site):
     fidn = f'{fn.__code__.co_filename.split("habutax/")[-1]}:{fn.__code__.co_firstlineno}'
     paths = linevc.explore_line(year, fld)
     if any(p.outcome[0] == 'unsupported' for p in paths):
-        return [Ob(id=oid0 + '/site', status=oblig.UNDECIDED, function=fidn, solver_output='line outside the subset: ' + str([p.outcome[1] for p in paths if p.outcome[0] == 'unsupported'][:1]))]
+        why = 'line outside the subset: ' + str([p.outcome[1] for p in paths if p.outcome[0] == 'unsupported'][:1])
+        if site['kind'] == 'table':
+            # no proof is possible, but the official table can still refute the real line: every row bound and its two neighbours, per status
+            rep = native_table(year, site, lname)
+            if rep.get('reproduced'):
+                return [Ob(id=oid0 + '/site', status=oblig.REFUTED, backend='native', function=fidn, clause=f'NOT: {lname} follows the official {site["official"]}[{year}] table at its row bounds',
+                           witness=rep.get('first'), replay=rep, solver_output=why + '; refuted natively at a row bound')]
+        return [Ob(id=oid0 + '/site', status=oblig.UNDECIDED, function=fidn, solver_output=why)]
     enum = status_enum(year)
     sort, consts, none, cls = sym.enum_sort(enum)
     ssym, _ = find_symbol('i|1040.filing_status', enum)
@@ -299,7 +337,11 @@ def check_site(year, site):
             for k, want in enumerate(vals):
                 t1 = time.time()
                 lo, hi = bounds[k], bounds[k + 1]
-                rng = [amt > lo] + ([amt <= hi] if hi is not None else [])
+                if site.get('at_least_but_less_than'):
+                    rng = [amt >= (lo if k else z3.RealVal(0))] + ([amt < hi] if hi is not None else [])
+                else:
+                    rng = [amt > lo] + ([amt <= hi] if hi is not None else [])
+                beyond = site.get('beyond_rate') if hi is None else None
                 covered, bad = 0, None
                 for p in paths:
                     if p.outcome[0] != 'return':
@@ -312,13 +354,15 @@ def check_site(year, site):
                     if val is None or sym.kind_of(val) not in sym.NUM:
                         bad = (p, None)
                         break
-                    st, model, be, secs, txt = smt.prove(hyp, sym.term(val, 'real') == rv(want))
+                    target = rv(want) if beyond is None else rv(beyond) * amt
+                    st, model, be, secs, txt = smt.prove(hyp, sym.term(val, 'real') == target)
                     if st != 'discharged':
-                        mdl, _ = replay.solve_model(p, extra=sel + rng + [sym.term(val, 'real') != rv(want)])
+                        mdl, _ = replay.solve_model(p, extra=sel + rng + [sym.term(val, 'real') != target])
                         bad = (p, mdl)
                         break
                 boid = f'{oid}/bracket={k}'
-                clause = f'{lname} is {want} for {mtxt} with {site["amount"]} in ({tab[k - 1][0] if k else "-inf"}, {tab[k][0] if k < len(tab) else "inf"}]'
+                clause = f'{lname} is {want if beyond is None else str(beyond) + " x the amount"} for {mtxt} with {site["amount"]} in ({tab[k - 1][0] if k else "-inf"}, {tab[k][0] if k < len(tab) else "inf"}]' \
+                    + (' (at least / but less than)' if site.get('at_least_but_less_than') else '')
                 if bad is None and covered:
                     obs.append(Ob(id=boid, backend='z3', function=fidn, time_s=time.time() - t1, clause=clause, vc=f'{covered} path(s)'))
                 elif bad is None:
@@ -327,7 +371,7 @@ def check_site(year, site):
                     rep, wit = native(year, lname, bad[1])
                     rep['expected'] = str(want)
                     try:
-                        rep['reproduced'] = rep.get('outcome') == 'return' and abs(float(eval(rep['value'], {'__builtins__': {}})) - float(want)) > 1e-9
+                        rep['reproduced'] = rep.get('outcome') == 'return' and (beyond is not None or abs(float(eval(rep['value'], {'__builtins__': {}})) - float(want)) > 1e-9)
                     except Exception:
                         rep['reproduced'] = rep.get('outcome') != 'return'
                     obs.append(Ob(id=boid, status=oblig.REFUTED, backend='z3', function=fidn, clause='NOT: ' + clause, witness=wit, replay=rep, solver_output='sat',
